@@ -430,6 +430,15 @@ def check_C19(tier):
         rep.case(what, nontrivial=True)
     # two calls that are both close to an interpreter-wide resource limit (nesting beyond the recursion limit:
     # alone each raises RecursionError, see known_findings.json; together they must do exactly the same)
+    # a molecule with more than 99 ring closures (ring numbers are reused) beside another ring-writing call
+    many = "".join(gens.rings_beyond_99(random.Random(seed() + 99), tail=40))
+    small = "[C][C][C][Ring1][Ring1][C][C][C][Ring1][Ring1][C][=C][C][C][Ring1][Branch1]"
+    explore_lines(rep, [["dec", many], ["dec", small]],
+                  quick, rng, "decoder (more than 99 rings) || decoder (rings)", max_single=(25 if quick else 400),
+                  n_double=(25 if quick else 400))
+    explore_lines(rep, [["dec", "".join(gens.wrapped_rings(130))], ["dec", small]],
+                  quick, rng, "decoder (macrocycle through 130 small rings: a ring number stays open) || decoder (rings)",
+                  max_single=(40 if quick else 400), n_double=(30 if quick else 400))
     deep = "".join(gens.deep_branches(1200))
     explore_lines(rep, [["dec", deep], ["dec", deep + "[O]"]], quick, rng, "decoder || decoder (both nested 1200 deep)",
                   max_single=(30 if quick else 300), n_double=(60 if quick else 600))
